@@ -99,6 +99,9 @@ class G:
                 # nullable on its own -> guard with keyword so alternatives/bodies stay non-nullable
                 return Seq([self.newkw(), a])
             return a
+        if c < 0.525:
+            self.used_features.add('rule-ref-suppress')
+            return Ref(r.choice(self.match), suppress=True)
         if c < 0.55:
             return Lit(r.choice(SYMS))
         if c < 0.65:
